@@ -23,7 +23,7 @@ XSD = (f'<xs:schema xmlns:xs="{cm.XS}" targetNamespace="{T}" xmlns:t="{T}" eleme
        '<xs:element name="em" type="xs:string" minOccurs="0"/></xs:sequence></xs:complexType></xs:element>'
        '<xs:any namespace="##other" processContents="strict" minOccurs="0" maxOccurs="2"/></xs:sequence>'
        '<xs:attribute name="id" type="xs:int" use="required"/><xs:attribute name="flag" type="xs:boolean"/>'
-       '</xs:complexType>'
+       '<xs:attribute name="ref" type="xs:QName"/></xs:complexType>'
        # global declarations that share their names with the LOCAL note / qty but not their types: they govern
        # nothing inside lib (spec/Validator.tla: the governing declaration is the local one)
        '<xs:element name="note" type="xs:int"/><xs:element name="qty" type="xs:boolean"/>'
@@ -37,10 +37,10 @@ XSD11 = XSD.replace('maxOccurs="unbounded"/></xs:sequence></xs:complexType></xs:
 assert XSD11 != XSD
 
 TEXT = {"memo": {"ok": "draft", "bad": "final"}, "ext": {"ok": "e"}, "title": {"ok": "abc"}, "qty": {"ok": "5", "bad": "x"}, "note": {"ok": "n"}}
-ATTR = {"id": {"ok": "7", "bad": "x"}, "flag": {"ok": "true", "bad": "maybe"}, "bogus": {"ok": "1"}}
+ATTR = {"ref": {"ok": "x:known"}, "id": {"ok": "7", "bad": "x"}, "flag": {"ok": "true", "bad": "maybe"}, "bogus": {"ok": "1"}}
 
 
-def render(nodes, prefix="t", default_ns=False, root_attrs="", inner_default=False):
+def render(nodes, prefix="t", default_ns=False, root_attrs="", inner_default=False, decl_on_item=False):
     """Flat node list (document order, paths) -> XML text.  inner_default: the root uses the prefix, every child
     of the root REDECLARES the namespace as default namespace and its subtree is written without prefixes."""
     out, stack = [], []
@@ -54,11 +54,13 @@ def render(nodes, prefix="t", default_ns=False, root_attrs="", inner_default=Fal
         at = "".join(f' {a}="{ATTR[a][v]}"' for a, v in sorted(map(tuple, n["attrs"])))
         if depth == 0:
             at = (f' xmlns="{T}"' if default_ns else f' xmlns:{prefix}="{T}"') + \
-                ("" if inner_default else f' xmlns:x="{X}"') + root_attrs + at
+                ("" if (inner_default or decl_on_item) else f' xmlns:x="{X}"') + root_attrs + at
         elif depth == 1 and inner_default:
-            at = f' xmlns="{T}"' + at
+            at = f' xmlns="{T}" xmlns:x="{X}"' + at      # (the QName value of @ref needs x here)
+        elif depth == 1 and decl_on_item:
+            at = f' xmlns:x="{X}"' + at                  # the prefix of x:* is declared on every item
         elif inner_default and n["name"] in ("ext", "unk"):
-            at = f' xmlns:x="{X}"' + at         # declared on the element itself
+            at = f' xmlns:x="{X}"' + at         # (re)declared on the element itself
         out.append(f"<{tag}{at}>")
         stack.append(tag)
         if n["text"] == "stray":
